@@ -359,6 +359,12 @@ class Env:
         except (vs.HarnessError, vos.WouldBlock, vos.Horizon):
             raise
         except Exception as exc:
+            if 'callback failed (propagated)' in str(exc):
+                # the user's own callback error, propagated on request
+                # (callbacks_propagate) to whoever resolved the job
+                self.log.append(('callback-error-propagated', ev[0]))
+                self.observe(ev)
+                return self.choices.decisions
             if ev[0] not in ('tick', 'scan', 'deliver'):
                 raise
             # these run inside pool threads: PoolThread.run turns any
@@ -391,7 +397,11 @@ class Env:
         cb = self.cb
 
         def mk(tag):
-            return lambda *a, **kw: cb[j].append((tag, self.world.now))
+            def f(*a, **kw):
+                cb[j].append((tag, self.world.now))
+                if t.get('cb_raises') and tag in ('ok', 'err'):
+                    raise KeyError('callback failed (propagated)')
+            return f
         if kind == 'apply':
             arg = tasks.Unsendable() if t.get('unsendable') else t.get('arg', j)
             prev = pool.threads
@@ -405,7 +415,9 @@ class Env:
                     cb[j].append(('to', self.world.now, kw.get('soft'),
                                   kw.get('timeout'))),
                     soft_timeout=t.get('soft'), timeout=t.get('hard'),
-                    lost_worker_timeout=t.get('lost'))
+                    lost_worker_timeout=t.get('lost'),
+                    callbacks_propagate=(KeyError,) if t.get('cb_raises')
+                    else ())
             finally:
                 pool.threads = prev
             rec['expect'] = self._seq(fn, arg)
@@ -620,7 +632,13 @@ class Env:
     def ev_deliver(self):
         if self.outq_times:
             self.outq_times.popleft()
-        self.pool.handle_result_event()
+        try:
+            self.pool.handle_result_event()
+        except KeyError as exc:
+            if 'callback failed (propagated)' not in str(exc):
+                raise
+            # callbacks_propagate: the embedder sees the callback's error
+            self.log.append(('callback-error-propagated',))
 
     def ev_tick(self):
         pool = self.pool
